@@ -160,6 +160,9 @@ def run(ctx):
                 if res.foreign:
                     ctx.stat("foreign_failure:exception")
                 continue
+            if kind == "dsge" and res.kind == "create":
+                for idx in res.new:
+                    w.op_map(idx)  # dynamic SGE genotypes are empty until they are mapped (as evaluation does)
             if res.kind == "crossover":
                 i, j = res.args
                 p1, p2 = w.pool[i], w.pool[j]
@@ -186,6 +189,9 @@ def run(ctx):
                         cause = check_linear_child(keyed(child, kind), kp1, kp2)
                         if cause:
                             ctx.violate(f"C06/{kind}-crossover/{cause}", f"{tag} child of {kind} crossover: {cause}")
+                    if kind == "dsge":
+                        for idx in res.new:
+                            w.op_map(idx)
             elif res.kind == "mutate" and kind != "tree":
                 (i,) = res.args
                 ctx.nontrivial = True
@@ -193,5 +199,7 @@ def run(ctx):
                 cause = check_linear_mutant(keyed(w.pool[res.new[0]], kind), keyed(w.pool[i], kind))
                 if cause:
                     ctx.violate(f"C06/{kind}-mutation/{cause}", f"{kind} mutation: {cause}")
+                if kind == "dsge":
+                    w.op_map(res.new[0])
     finally:
         w.dispose()
